@@ -51,7 +51,8 @@ func (s *Service) BeaconBlockHeader(ctx context.Context,
 	// We create a cancelable context with a timeout.  When a provider responds we cancel the context to cancel the other requests.
 	ctx, cancel := context.WithTimeout(ctx, s.timeout)
 
-	respCh := make(chan *beaconBlockHeaderResp, 1)
+	// Room for every provider's response, so that no provider is left blocked once we have returned.
+	respCh := make(chan *beaconBlockHeaderResp, len(s.beaconBlockHeadersProviders))
 	for name, provider := range s.beaconBlockHeadersProviders {
 		go func(ctx context.Context,
 			name string,
